@@ -674,4 +674,45 @@ theorem nullOK_coll (p : Nat) (t : CqlTy) (ht : (∃ e, isListLike t e) ∨ (∃
   unfold NullOK
   rcases ht with ⟨e, rfl | rfl⟩ | ⟨k, v, rfl⟩ <;> exact ⟨_, rfl⟩
 
+/-! ## tuple fields as data (for the inductive `Clean` of Proofs/C02.lean) -/
+
+inductive FKind | val | null | ptr
+
+/-- one struct field bound to a tuple element of type `t`: `val` = a field of type goType(t) holding `v`,
+    `null` = a nil field of type *goType(t), `ptr` = a field of type *goType(t) pointing to `v` -/
+structure TField where
+  t : CqlTy
+  kind : FKind
+  v : GoVal
+
+def TField.ty (f : TField) : GoTy := match f.kind with | .val => goTypeOf f.t | _ => .ptr (goTypeOf f.t)
+def TField.val (f : TField) : GoVal := match f.kind with | .val => f.v | .null => .nilptr | .ptr => .ptr f.v
+
+/-- the side conditions of a field that do not mention the round trip of its value -/
+def TField.side (p : Nat) (f : TField) : Prop :=
+  match f.kind with
+  | .val => isBase (goTypeOf f.t) = true ∧ f.v.isNilPtr = false ∧ Small p f.t f.v
+  | .null => NullOK p f.t
+  | .ptr => NonNull p f.t f.v ∧ Small p f.t f.v
+
+theorem fieldsRT_of (p : Nat) : ∀ fs : List TField,
+    (∀ f, f ∈ fs → f.kind ≠ .null → RT p f.t (goTypeOf f.t) f.v) → (∀ f, f ∈ fs → f.side p) →
+    FieldsRT p (fs.map (·.t)) (fs.map (·.ty)) (fs.map (·.val))
+  | [], _, _ => .nil
+  | f :: fs, hrt, hs => by
+    have ih := fieldsRT_of p fs (fun g hg => hrt g (List.mem_cons_of_mem _ hg)) (fun g hg => hs g (List.mem_cons_of_mem _ hg))
+    have h1 := hrt f List.mem_cons_self
+    have h2 := hs f List.mem_cons_self
+    obtain ⟨t, kind, v⟩ := f
+    cases kind with
+    | val =>
+      simp only [TField.side] at h2
+      exact .val h2.1 h2.2.1 (h1 (by intro h; cases h)) h2.2.2 ih
+    | null =>
+      simp only [TField.side] at h2
+      exact .null h2 ih
+    | ptr =>
+      simp only [TField.side] at h2
+      exact .ptr (h1 (by intro h; cases h)) h2.1 h2.2 ih
+
 end C02Nested
